@@ -137,7 +137,7 @@ def oracle_pair(case, r):
 
 def gen_builtin(rng, nmax):
     m = rng.randint(1, 3)
-    score = rng.choice(["l2", "l2", "gauss"])
+    score = rng.choice(["l2", "l2", "gauss", "l2q"])  # l2q: a user-defined subclass of the squared-error cost with another value
     if score == "gauss":
         m = max(m, 2)
     n = rng.randint(max(2 * m, 4), nmax)
@@ -168,7 +168,9 @@ def long_builtin(rng):
 def _mk(kind):
     from skchange.costs import GaussianVarCost, L2Cost
 
-    return {"l2": L2Cost, "gauss": GaussianVarCost}[kind]()
+    from ..scorers import QuarterL2Cost
+
+    return {"l2": L2Cost, "gauss": GaussianVarCost, "l2q": QuarterL2Cost}[kind]()
 
 
 def impl_builtin(case):
@@ -206,7 +208,15 @@ def impl_builtin(case):
         tab = {}
         for s, e in set(ivs):
             cands = inner_intervals(s, e, m)
-            if cands:
+            if cands and case["score"] == "l2q":
+                # for the user-defined cost the table comes from the DEFINITION C(s,e) - (C(a,b) + C(pooled surroundings)),
+                # evaluated with the cost object itself
+                c0, c1 = _mk("l2q").fit(X), _mk("l2q")
+                for a, b in cands:
+                    pooled = np.concatenate((X[s:a], X[b:e]))
+                    v = c0.evaluate(np.array([[s, e]])) - (c0.evaluate(np.array([[a, b]])) + c1.fit(pooled).evaluate(np.array([[0, len(pooled)]])))
+                    tab[f"{s},{a},{b},{e}"] = float(v.sum(axis=1)[0])
+            elif cands:
                 vals = sc.evaluate(np.array([(s, a, b, e) for a, b in cands])).sum(axis=1)
                 for (a, b), v in zip(cands, vals):
                     tab[f"{s},{a},{b},{e}"] = float(v)
